@@ -225,6 +225,19 @@ def _mutate(lines, kind, a, b, c):
             k, s0, s1, v = cands[a % len(cands)]
             new = max(0, v + [-1, -2, -3, 1, 2, 5][c % 6])
             out[k] = out[k][:s0] + str(new).rjust(s1 - s0) + out[k][s1:]
+    elif kind == "count-huge":
+        # one count-like integer becomes so large that an array of that size cannot be allocated: the allocation
+        # failure (MemoryError) must surface as LoadError like any other failure
+        import re
+
+        cands = []
+        for k in range(n):
+            m = re.search(r"N=\s*(\d+)\s*$", out[k]) or re.fullmatch(r"\s*(\d+)\s*", out[k])
+            if m:
+                cands.append((k, m.start(1), m.end(1)))
+        if cands:
+            k, s0, s1 = cands[a % len(cands)]
+            out[k] = out[k][:s0] + str(10 ** 14 + c % 7).rjust(s1 - s0) + out[k][s1:]
     elif kind == "del-section":
         # delete the body of a section: the lines between two header-like lines
         heads = [k for k in range(n) if _sig(out[k]) and _sig(out[k])[0] == "a" and (k + 1 < n and _sig(out[k + 1]) != _sig(out[k]))]
@@ -398,7 +411,7 @@ def _tasks(ctx):
     files = _corpus(ctx)
     tasks = []
     kinds = ["delete", "dup", "swap", "subst", "subst", "overflow", "overflow", "inflate", "trunc-byte",
-             "count-zero", "count-zero", "del-section", "count-delta", "count-delta", "bad-utf8"]
+             "count-zero", "count-zero", "del-section", "count-delta", "count-delta", "bad-utf8", "count-huge"]
     per_file = ctx.n(36, 150) * (3 if ctx.escalated else 1)
     for fname, fmt, many, size in files:
         nl = sum(1 for _ in open(REPO / "iodata" / "test" / "data" / fname, errors="replace"))
@@ -427,6 +440,8 @@ def _tasks(ctx):
         ncount = sum(1 for l in ftxt if _re.search(r"N=\s*\d+\s*$", l) or _re.fullmatch(r"\s*\d+\s*", l))
         for k in range(min(ncount, ctx.n(24, 80))):
             base.append(("count-delta", k if ncount <= ctx.n(24, 80) else rng.randrange(ncount), 0, rng.randrange(6)))
+        for k in range(min(ncount, 3)):
+            base.append(("count-huge", k, 0, rng.randrange(7)))
         for kind, a, b, c in base:
             use_many = many and rng.random() < 0.5
             tasks.append((fname, use_many, kind, a, b, c, rng.random() < 0.3))
